@@ -364,8 +364,13 @@ func check(env *rig.Env, c *Case, out rig.Outcome) outcome {
 		}
 	}
 	if c.Stmt.Kind == "read" {
-		if len(out.Sent) != 1 {
-			fail("read_copy_count", fmt.Sprintf("a read must go to exactly one copy, went to %d", len(out.Sent)))
+		// a UNION is two SELECTs, each of which goes to exactly one copy
+		wantN := 1
+		if c.Stmt.Form == "union" {
+			wantN = 2
+		}
+		if len(out.Sent) != wantN {
+			fail("read_copy_count", fmt.Sprintf("every SELECT must go to exactly one copy; %d SELECT(s) produced %d statements", wantN, len(out.Sent)))
 		}
 	} else {
 		for _, cp := range copies {
@@ -535,7 +540,9 @@ func main() {
 			c := Case{Layout: l, Stmt: s}
 			runCase(r, env, c, false)
 			if samples < 8 && l.NSlices == 2 && l.total() == 3 && (s.Form == "update" || s.Form == "join_on") && s.Qual == "table_db/col_db" {
-				r.Sample(map[string]interface{}{"layout": l.String(), "copies": fmt.Sprint(l.copies()), "sql": s.SQL, "sent": describe(env.Plan(rig.DB, s.SQL))})
+				vrand.Chooser = func(n int, what string) int { return n - 1 }
+				r.Sample(map[string]interface{}{"layout": l.String(), "copies": fmt.Sprint(l.copies()), "sql": s.SQL, "random_answer": "last", "sent": describe(env.Plan(rig.DB, s.SQL))})
+				vrand.Chooser = nil
 				samples++
 			}
 		}
